@@ -192,7 +192,7 @@ func cliLeg(c *core.Ctx) {
 	}
 	tdata, udata := cliData(c.Rng("cli-data"))
 	files := map[string][]byte{"t.json": tdata, "u.json": udata}
-	n := c.Pick(60, 1200)
+	n := c.Pick(60, 800)
 	selfLeft := 1
 	type job struct {
 		q    cliQuery
